@@ -265,7 +265,7 @@ fn gen_contour(rng: &mut Rng, quads: bool, used: &mut Vec<(i64, i64)>) -> Vec<Pt
     pts
 }
 
-fn vary_glyph(rng: &mut Rng, g: &GlyphDef, amount: i64, transforms_vary: bool) -> GlyphDef {
+pub fn vary_glyph(rng: &mut Rng, g: &GlyphDef, amount: i64, transforms_vary: bool) -> GlyphDef {
     let mut out = g.clone();
     out.advance = (g.advance + rng.range(-amount, amount) as f64).max(0.0);
     if let Some(h) = g.height { out.height = Some(h + rng.range(-amount, amount) as f64); }
